@@ -22,26 +22,33 @@ def timed(f):
         gc.enable()
 
 
-def keyarg(ks, spelling):
-    """render a list of key specifications as the lcols / rcols argument"""
+def keyarg(ks, spelling, cache=None):
+    """render a list of key specifications as the lcols / rcols argument; with a cache (one per session) the caller keeps ONE list object
+    per key specification and hands it to every call - and to both parameters of one call - that names these keys"""
     items = [k[1] if k[0] == 'col' else FN[k[1]] for k in ks]
     if spelling == 'str' and len(items) == 1:
         return items[0]
     if spelling == 'tuple':
         return tuple(items)
+    if cache is not None:
+        return cache.setdefault(json.dumps(ks), items)
     return items
 
 
-def render_call(left, right, lk, rk, op, mode, spelling, how, n):
+def keyargs_now(cache):
+    return [[k, tag(v)] for k, v in sorted(cache.items())]
+
+
+def render_call(left, right, lk, rk, op, mode, spelling, how, n, cache=None):
     """one call plan as a thunk on the real objects; op: join | xor | leftjoin (= x*y + x/y on the same two objects);
     how: 'operator' (x * y, x / y; implicit keys, default mode) or a method call; n rotates the spelling of the mode"""
     if how == 'operator':
         return {'join': lambda: left * right, 'xor': lambda: left / right, 'leftjoin': lambda: left * right + left / right}[op]
     kw = {}
     if spelling != 'none':
-        kw['lcols'] = keyarg(lk, spelling)
+        kw['lcols'] = keyarg(lk, spelling, cache)
         if spelling != 'same':                  # 'same': rcols omitted, defaults to lcols
-            kw['rcols'] = keyarg(rk, spelling)
+            kw['rcols'] = keyarg(rk, spelling, cache)
     kwj = dict(kw)
     if mode != 'none' or how == 'method_mode':
         kwj['mode'] = MODES[mode]
@@ -288,11 +295,12 @@ def run_session(h, family, obs, meta):
     kinds = {'X': 'table', 'Y': h['kindY'], 'Z': 'table'}
     objs = {o: x_join.build_obj(kinds[o], h['pool'][o], ids) for o in ('X', 'Y', 'Z')}
     read = lambda: {o: x_join.read_obj(kinds[o], objs[o], ids) for o in ('X', 'Y', 'Z')}
-    pool, res = read(), None
+    pool, res, cache = read(), None, {}
     for k, st in enumerate(h['steps']):
         out = {'kind': 'none'}
         if st['kind'] == 'call':
-            f = render_call(objs[st['l']], objs[st['r']], st['lk'], st['rk'], st['op'], st['mode'], st['spelling'], st['how'], k)
+            f = render_call(objs[st['l']], objs[st['r']], st['lk'], st['rk'], st['op'], st['mode'], st['spelling'], st['how'], k, cache)
+            ka = keyargs_now(cache)
             if TIMEOUTS[0] >= 25:
                 return
             status, val = timed(f)
@@ -310,6 +318,8 @@ def run_session(h, family, obs, meta):
             x_join.edit_obj(kinds[st['obj']], objs[st['obj']], st, ids)
         after = read()
         obs.append({'sess': 1, 'kindY': h['kindY'], 'step': st, 'pool': pool, 'pool_after': after, 'out': out})
+        if st['kind'] == 'call':
+            obs[-1].update({'ka': ka, 'ka_after': keyargs_now(cache)})
         meta[len(obs) - 1] = {'family': family, 'sess': h, 'step': k}
         pool = after
 
@@ -415,7 +425,7 @@ def run_keys(ctx, obs, meta):
     kcases = ctx.generate('MC_Join', 'MC_Join_gen_key2.cfg')
     kcases.sort(key=lambda c: json.dumps(c, sort_keys=True))
     if ctx.quick:
-        kcases = ctx.rng.sample(kcases, 1000)
+        kcases = ctx.rng.sample(kcases, 800)
     scs = schemes()
     for k, c in enumerate(kcases):
         sc = scs[k % len(scs)]
